@@ -212,6 +212,10 @@ func (t *Table) GetNextHop(target boson.Address, skips ...boson.Address) (next [
 		// remove duplication next
 		list := make(map[string]boson.Address, len(routes))
 		for _, v := range routes {
+			// a route whose path is no longer stored (deleted, expired or dropped on reload) offers nothing
+			if _, has := t.paths.Load(v.PathKey); !has {
+				continue
+			}
 			if !v.Neighbor.MemberOf(skips) {
 				list[v.Neighbor.String()] = v.Neighbor
 			}
@@ -253,6 +257,8 @@ func (t *Table) Delete(path *Path) {
 			}
 			if len(routesNow) < len(routes) {
 				t.routes[targetKey] = routesNow
+				// keep the persisted list in step, otherwise the route comes back on restart
+				_ = t.store.Put(routePrefix+target.String(), routesNow)
 			}
 		}
 	})
